@@ -268,3 +268,44 @@ def run(ctx: Ctx):
                   f"a property named '{k}' becomes attribute {s!r}, which is not a valid identifier", P_PYUTILS)
         ctx.check(s == camel_to_snake(k), "keyword-suffix", f"keyword={k}:independent",
                   f"_to_snake_case({k!r}) = {s!r} differs from the documented rule", P_PYUTILS)
+
+
+def _flatten_agreement(ctx: Ctx):
+    """Inheritance flattening: the four plugin implementations, constant-folded (E5) on a synthetic lattice, must
+    give every class the nearest declaration of each property (own > extends/mixins, depth first)."""
+    from .. import flatten
+    idx = Index(ctx.src, dirs=("generator",))
+    spec, structs = flatten.lattice()
+    impls = [
+        ("python", P_PYUTILS, lambda s: flatten.fold_python(idx, spec, structs, s)),
+        ("rust", flatten.P_RC, lambda s: flatten.fold_rust(idx, spec, structs, s)),
+        ("dotnet", flatten.P_DN, lambda s: flatten.fold_plain(idx, flatten.P_DN, spec, structs, s)),
+        ("testdata", flatten.P_TD, lambda s: flatten.fold_plain(idx, flatten.P_TD, spec, structs, s)),
+    ]
+    n = 0
+    for sname in ("A", "B", "C"):
+        exp = flatten.expected(structs, sname)
+        for plugin, rel, fold in impls:
+            got = fold(sname)
+            n += 1
+            ctx.fn(f"{rel}:flatten")
+            for k in sorted(set(exp) | set(got)):
+                ctx.check(exp.get(k) == got.get(k), "flatten-nearest-wins", f"{plugin}:struct={sname}:prop={k}",
+                          f"on the synthetic lattice the {plugin} plugin gives {sname}.{k} the declaration of "
+                          f"{got.get(k)!r}; the nearest declaration is {exp.get(k)!r} (own > extends/mixins depth first)",
+                          rel, None, sample={"plugin": plugin, "struct": sname, "prop": k, "owner": got.get(k)})
+    ctx.floor("flattening folds", n, 12)
+    # anonymous literal types at every position of the discipline get a name and a class (python plugin)
+    res = flatten.fold_python_literals(idx)
+    ctx.floor("literal shapes folded", len(res), 6)
+    for label, problem in res.items():
+        ctx.check(problem is None, "literal-types-named", f"python:shape={label}",
+                  f"a property typed {label}: {problem}", P_PYUTILS, None, sample={"shape": label, "result": problem or "named"})
+
+
+_run_c06 = run
+
+
+def run(ctx: Ctx):  # noqa: F811
+    _run_c06(ctx)
+    _flatten_agreement(ctx)
